@@ -261,6 +261,52 @@ def vhdx_item_sweep(rng, tier):
         for sizes in [[n]] + rng.sample(cuts[1:], 2 if tier == 'quick' else 5):
             yield {'op': 'insp', 'fmt': 'vhdx', 'n': n, 'bg': 'z', 'p': p, 'sizes': sizes, 'k': 'itemsweep'}
 
+def vmdk_long_descriptors(rng, tier):
+    """sparse VMDKs whose descriptor TEXT fills 1..8 sectors, the line that decides the safety verdict placed in each sector (an extent naming a
+    device / a path, a junk line, the only extent, the createType line itself), desc_num exact and larger than the text; cuts at every 512-byte
+    boundary inside the descriptor +-1, 1-byte and 17-byte chunkings"""
+    k = 12 if tier == 'quick' else 400
+    DECISIVE = ['RW 1 FLAT "/dev/sda" 0', 'RW 2048 SPARSE "sub/dir/disk.vmdk"', 'foo bar baz', 'RW 2048 SPARSE "only-extent.vmdk"', 'createType="monolithicSparse"',
+                'createType="vmfs"', 'RDONLY 4 ZERO', 'caf\xe9 = 1']
+    for j in range(k):
+        S = rng.randint(1, 8) if j % 4 else rng.choice([2, 3])
+        where = rng.randrange(S)                      # the sector (of the descriptor) that holds the decisive line
+        dec = DECISIVE[j % len(DECISIVE)] if tier == 'quick' else rng.choice(DECISIVE)
+        head = '# Disk DescriptorFile\nversion=1\nCID=fffffffe\nparentCID=ffffffff\n'
+        if not dec.startswith('createType'): head += 'createType="%s"\n' % rng.choice(['monolithicSparse', 'streamOptimized'])
+        if 'only-extent' not in dec and not dec.startswith('createType="vmfs'): head += 'RW 2048 SPARSE "disk.vmdk"\n'
+        lines = [head]
+        def filler(i): return rng.choice(['ddb.pad%04d = "%s"\n' % (i, 'x' * rng.randint(1, 40)), '# filler %04d %s\n' % (i, '.' * rng.randint(0, 50)), '\n'])
+        text = head; i = 0; placed = False
+        while len(text) < S * 512 - 60:
+            if not placed and len(text) >= where * 512:
+                text += dec + '\n'; placed = True
+            text += filler(i); i += 1
+        if not placed: text += dec + '\n'
+        desc = text.encode('latin-1')
+        sect = (len(desc) + 511) // 512
+        dn = sect + rng.choice([0, 0, 1, 3, 20 - sect if sect < 20 else 0])
+        n, p, bounds = b_vmdk(rng, desc=desc, desc_num=dn, sectors=2048)
+        inner = [512 + 512 * q + d for q in range(0, dn + 1) for d in (-1, 0, 1) if 0 < 512 + 512 * q + d < n]
+        cuts = [[n]]
+        for _ in range(2 if tier == 'quick' else 6):
+            a = rng.choice(inner); cuts.append([a, n])
+        b2 = sorted(set(rng.sample(inner, min(len(inner), 3)))); cuts.append([y - x for x, y in zip([0] + b2, b2)])
+        cuts.append([17] * (n // 17 + 1))
+        if n <= 2100 or tier != 'quick': cuts.append([1] * n)
+        cuts.append([512] * (n // 512 + 1)); cuts.append([600, 1000, 100000])
+        for sizes in [cuts[0]] + rng.sample(cuts[1:], 3 if tier == 'quick' else len(cuts) - 1):
+            yield {'op': 'insp', 'fmt': 'vmdk', 'n': n, 'bg': 'z', 'p': p, 'sizes': sizes, 'k': 'longdesc:%d/%d' % (where, S)}
+
+def wrapper_polyglots(rng, tier):
+    """two formats in one stream, read through InspectWrapper with expected_format set, one big read vs small reads (clause 'wx' of the oracle)"""
+    iso = b_iso(rng)[1]; q = b_qcow2(rng, size=12345)[1]; g = b_gpt(rng)[1]; v = b_vhd(rng, size=777)[1]; l = b_luks(rng)[1]
+    combos = [('qcow2', q + iso, 36 * KI), ('iso', q + iso, 36 * KI), ('gpt', g + iso, 36 * KI), ('iso', g + iso, 36 * KI), ('vhd', v + iso, 36 * KI),
+              ('qcow2', q + [P(510, b'\x55\xaa'), P(446, pte())], 2048), ('gpt', q + [P(510, b'\x55\xaa'), P(446, pte())], 2048), ('luks', l + iso, 36 * KI)]
+    for exp, p, n in combos:
+        for sizes in ([n], [512] * (n // 512 + 1), [4096] * (n // 4096 + 1), [100, 411, 1, n]):
+            yield {'op': 'insp', 'fmt': exp, 'n': n, 'bg': 'z', 'p': p, 'sizes': sizes, 'k': 'wpoly', 'wx': exp}
+
 def gen_cases(rng, tier):
     per = {'quick': 70, 'thorough': 1500}[tier]
     for fmt in FORMATS:
@@ -274,6 +320,8 @@ def gen_cases(rng, tier):
                 yield c
     yield from tiny_cases(rng, tier)
     yield from vhdx_item_sweep(rng, tier)
+    yield from vmdk_long_descriptors(rng, tier)
+    yield from wrapper_polyglots(rng, tier)
     # every format on every other format's valid image (detection runs all inspectors on the same bytes)
     for src in FORMATS:
         n, p, bounds = BUILD[src](rng)
@@ -479,6 +527,16 @@ def oracle_(c, io):
             _nozone.add(id(c))
             return ('InspectWrapper: reads %r with transient empty reads at %r (%s chunks) give %r; the same bytes read with sizes %r (bytes chunks) give %r'
                     % (rs[:14], emp, insp_obs.container_kind(data, rs), b, plain[:12], a))
+    # InspectWrapper with expected_format: one big read vs the case's reads (outside the VMDK / VHDX zones of the same bytes)
+    if c.get('wx') or (c['fmt'] != 'raw' and (hash(repr(c['sizes'])) + c['n']) % 8 == 3):
+        exp = c.get('wx') or c['fmt']
+        if not zone(dict(c, fmt='vmdk')) and not zone(dict(c, fmt='vhdx')):
+            data = data_of(c)
+            a = insp_obs.observe_wrapper(data, [len(data)], expected_format=exp, container='bytes')
+            b = insp_obs.observe_wrapper(data, [x for x in c['sizes'] if x > 0], expected_format=exp)
+            if a != b:
+                _nozone.add(id(c))
+                return ('InspectWrapper(expected_format=%r) depends on the read sizes: %r with reads %r, %r with one read of everything' % (exp, b, c['sizes'][:12], a))
     if c.get('check') == 'history' or (hash(repr(c['sizes'])) + c['n']) % 16 == 5:
         data = data_of(c)
         hist = unrelated_image('qcow2') if (c['n'] % 2) else unrelated_image('vmdk')
